@@ -45,11 +45,9 @@ func (s *snapshot) Get(key []byte, cb func(value []byte) error) error {
 		return err
 	}
 
-	if err := cb(data); err != nil {
-		return err
-	}
-
-	return closer.Close()
+	// The closer must be released whether or not the callback succeeds: an unreleased
+	// value keeps a reference into the block/file cache and makes DB.Close panic.
+	return errors.Join(cb(data), closer.Close())
 }
 
 func (s *snapshot) NewIterator(prefix []byte, withUpperBound bool) (db.Iterator, error) {
